@@ -177,6 +177,9 @@ class ScenarioModel(histbfs.Model):
             key = (sc.key(), tuple(m.state() for m in mons))
             info = None
             return key, vs, info
+        except sk.Livelock as e:
+            # the node's threads keep each other busy forever at one instant: no property of a live node holds
+            return ("livelock", tuple(history)), [("livelock:node-threads-never-reach-quiescence", f"{e}")], None
         finally:
             sc.close()
 
@@ -640,3 +643,147 @@ class RetransMonitor(WireTracker):
     def state(self):
         return (tuple(sorted((o, tuple(h[-self.W - 1:])) for o, h in self.hist_all.items())),
                 tuple(sorted((o, tuple(h[-self.W - 1:])) for o, h in self.hist_app.items())), len(self.reqs))
+
+
+DISCONNECT_REASON_DPR = 0x20
+DISCONNECT_REASON_DWA_TIMEOUT = 0x35
+
+
+class WatchdogMonitor(WireTracker):
+    """C11: idle => exactly one DWR at the next timer check; DWA => ready; silence => closed (watchdog reason)."""
+
+    def __init__(self, sc):
+        super().__init__(sc)
+        self.st = {}
+
+    def eff(self, s, key):
+        cfg = self.sc.cfg
+        t = cfg.get("node", {}).get(key, {"idle_timeout": 30, "dwa_timeout": 4}[key])
+        for pc in cfg.get("peers", []):
+            if pc["name"] == s.host and pc.get(key):
+                t = pc[key]
+        return t
+
+    def sockstate(self, sid):
+        if sid not in self.st:
+            self.st[sid] = {"ready": False, "rx": None, "rx_prev": None, "await": None, "dwr_at": [], "closed": False, "env_closed": False,
+                            "leaving": False, "pending_dwr": None, "must_close": None, "dwa_at": None}
+        return self.st[sid]
+
+    def step(self):
+        sc = self.sc
+        nw = sc.nw
+        vs = []
+        socks = {s.fs.sid: s for s in sc.socks}
+        evs = self.events()
+        for ev in evs:
+            k = ev[0]
+            if k == "in":
+                t, sid, f = ev[1], ev[2], ev[3]
+                st = self.sockstate(sid)
+                if st["rx"] != t:
+                    st["rx_prev"] = st["rx"]
+                st["rx"] = t
+                s = socks.get(sid)
+                if s is not None and s.kind == "dialled" and f.h.code == 257 and not f.h.is_request and f.result_code == 2001:
+                    st["ready"] = True
+                if not f.h.is_request and f.h.code == 280:
+                    st["last_dwa_in"] = t
+                    if st["await"] is not None:
+                        st["dwa_at"] = t
+                if f.h.is_request and f.h.code == 282:
+                    st["leaving"] = True
+            elif k == "out":
+                t, sid, f = ev[1], ev[2], ev[3]
+                st = self.sockstate(sid)
+                s = socks.get(sid)
+                if not f.h.is_request and f.h.code == 257 and f.result_code == 2001:
+                    st["ready"] = True
+                    st["rx"] = st["rx"] if st["rx"] is not None else t
+                if f.h.is_request and f.h.code == 280:
+                    st["dwr_at"].append(t)
+                    eff_idle = self.eff(s, "idle_timeout") if s else 0
+                    last_strict = st["rx_prev"] if st["rx"] == t else st["rx"]     # bytes arriving in the same instant may not be counted yet
+                    if st["await"] is not None and st["dwa_at"] is None and not st.get("ambiguous"):
+                        vs.append(("watchdog:second-DWR-while-awaiting-DWA", f"socket {sid} at {t}: DWR, still awaiting the DWA since {st['await']}"))
+                    elif not st["ready"]:
+                        vs.append(("watchdog:DWR-on-connection-that-is-not-ready", f"socket {sid} at {t}"))
+                    elif last_strict is not None and t - last_strict <= eff_idle:
+                        vs.append(("watchdog:DWR-although-traffic-arrived-within-the-idle-timeout",
+                                   f"socket {sid} at {t}: last bytes at {st['rx']} (before that {st['rx_prev']}), idle timeout {eff_idle}"))
+                    st["await"] = t
+                    st["dwa_at"] = None
+                    st["pending_dwr"] = None
+                    # a DWA delivered in the very instant the DWR leaves may or may not be taken as its answer
+                    st["ambiguous"] = st.get("last_dwa_in") == t
+                    if f.u32(278) is None or f.get(264) != nw.node.origin_host.encode():
+                        vs.append(("watchdog:DWR-lacks-origin-host-or-origin-state-id", f"{f!r}"))
+                if not f.h.is_request and f.h.code == 280:
+                    if f.result_code != 2001 or f.u32(278) != nw.node.state_id:
+                        vs.append(("watchdog:DWA-not-2001-with-the-node's-origin-state-id", f"socket {sid}: {f!r} origin-state-id {f.u32(278)} node {nw.node.state_id}"))
+            elif k == "timer_check":
+                t, sid, state = ev[1], ev[2], ev[3]
+                st = self.sockstate(sid)
+                s = socks.get(sid)
+                if s is None or not st["ready"] or st["env_closed"] or st["closed"] or st["leaving"] or getattr(nw.node, "_stopping", False):
+                    continue
+                if st.get("ambiguous"):
+                    continue
+                if st["await"] is not None and st["dwa_at"] is None:
+                    if t - st["await"] > self.eff(s, "dwa_timeout"):
+                        st["must_close"] = (t, st["await"], self.eff(s, "dwa_timeout"))
+                elif st["await"] is not None and st["dwa_at"] is not None:
+                    # a DWA has arrived; if it arrived strictly before this check the wait is over
+                    if st["dwa_at"] < t:
+                        st["await"] = None
+                        st["dwa_at"] = None
+                if st["await"] is None and st["rx"] is not None and t - st["rx"] > self.eff(s, "idle_timeout"):
+                    st["pending_dwr"] = (t, st["rx"], self.eff(s, "idle_timeout"))
+            elif k in ("env_eof", "env_reset"):
+                self.sockstate(ev[2])["env_closed"] = True
+            elif k == "close":
+                st = self.sockstate(ev[2])
+                st["closed"] = True
+                s = socks.get(ev[2])
+                if s is not None and st["await"] is not None and st["dwa_at"] is None and not st["env_closed"] and not st["leaving"] \
+                        and not getattr(nw.node, "_stopping", False) and ev[1] - st["await"] <= self.eff(s, "dwa_timeout"):
+                    vs.append(("watchdog:closed-before-the-DWA-timeout", f"socket {ev[2]}: DWR at {st['await']}, closed at {ev[1]}, timeout {self.eff(s, 'dwa_timeout')}"))
+        # quiescent obligations
+        for sid, st in self.st.items():
+            s = socks.get(sid)
+            if s is None:
+                continue
+            conn = nw.conn_of(s.fs)
+            if st["pending_dwr"] is not None:
+                t, rx, idle = st["pending_dwr"]
+                st["pending_dwr"] = None
+                if not s.fs.closed and not st["env_closed"]:
+                    vs.append(("watchdog:no-DWR-at-the-timer-check-after-the-idle-timeout", f"socket {sid}: check at {t}, last bytes at {rx}, idle timeout {idle}"))
+            if st["must_close"] is not None and not st.get("close_judged"):
+                st["close_judged"] = True
+                t, since, tmo = st["must_close"]
+                peer = nw.node.peers.get(s.host)
+                if not s.fs.closed:
+                    vs.append(("watchdog:not-closed-after-the-DWA-timeout", f"socket {sid}: DWR at {since}, check at {t}, timeout {tmo}, still open"))
+                elif peer is not None and peer.disconnect_reason != DISCONNECT_REASON_DWA_TIMEOUT:
+                    vs.append((f"watchdog:closed-with-reason-{peer.disconnect_reason}-instead-of-watchdog-timeout", f"socket {sid}"))
+            if conn is not None and st["ready"] and not st["leaving"] and not s.fs.closed and not st.get("ambiguous"):
+                awaiting = st["await"] is not None and st["dwa_at"] is None
+                if awaiting and conn.state != 0x13:
+                    vs.append(("watchdog:not-marked-as-awaiting-DWA-after-DWR", f"socket {sid}: state {conn.state:#x}"))
+                if not awaiting and conn.state == 0x13 and not (st["await"] is not None and st["dwa_at"] is not None and False):
+                    if st["dwa_at"] is not None or st["await"] is None:
+                        vs.append(("watchdog:DWA-did-not-return-the-connection-to-ready", f"socket {sid}: state {conn.state:#x}, DWA at {st['dwa_at']}"))
+        return vs
+
+    def state(self):
+        now = self.sc.nw.world.now
+        cfg = self.sc.cfg
+        cap = max([cfg.get("node", {}).get(k, 4) for k in ("idle_timeout", "dwa_timeout")] +
+                  [pc.get(k) or 0 for pc in cfg.get("peers", []) for k in ("idle_timeout", "dwa_timeout")]) + cfg.get("node", {}).get("wakeup", 1) + 1
+
+        def age(t):
+            return -1 if t is None else min(cap, int(now - t))
+        return tuple(sorted((sid, st["ready"], age(st["rx"]), age(st["rx_prev"]) if st["rx"] == now else -2, age(st["await"]), st["dwa_at"] is not None, st["closed"],
+                             st["env_closed"], st["leaving"], bool(st["must_close"]), bool(st.get("ambiguous")), st.get("last_dwa_in") == now)
+                            for sid, st in self.st.items()))
